@@ -27,7 +27,8 @@
 //                           running_ == false has been stored
 //     J                     open all gates, wait until stop() has returned
 //   case <id> free threads=<T> n=<records per thread> lens=<lenspec> roll=<bytes> burst=<k> quiesce=<0|1>
-//     (no ops) all gates open, T threads append concurrently, the clock ticks, then stop()
+//     (no ops) all gates open, T threads append concurrently, the clock ticks, then stop();
+//     optional slow=<us>: the back-end sleeps that long in front of every fwrite (provokes the overload valve)
 //   case <id> lfree threads=<T> n=<records per thread> lens=<lenspec> roll=<bytes> flush=<sec> every=<n> burst=<k>
 //     (no ops) T threads append concurrently to ONE thread-safe LogFile (threadSafe = true), the clock ticks
 //   end
@@ -96,6 +97,7 @@ static int g_nflush = 0;
 
 static std::atomic<bool> g_forced(false);          // gates active
 static std::atomic<bool> g_shortWait(false);       // free mode: timed waits shortened
+static std::atomic<long> g_slowWriteUs(0);         // free mode: the back-end sleeps this long per fwrite (provokes overload)
 static muduo::AsyncLogging* g_log = NULL;
 static pthread_mutex_t g_gm = PTHREAD_MUTEX_INITIALIZER;
 static pthread_cond_t g_gcBackend = PTHREAD_COND_INITIALIZER;
@@ -215,7 +217,12 @@ extern "C" size_t __wrap_fwrite_unlocked(const void* p, size_t sz, size_t n, FIL
   if (++t_fwCalls > 5000) runaway();
   if (g_log)
   {
-    if (isBackend()) gate("write", static_cast<long>(sz * n));
+    if (isBackend())
+    {
+      gate("write", static_cast<long>(sz * n));
+      long us = g_slowWriteUs.load();
+      if (us > 0) usleep(static_cast<useconds_t>(us));
+    }
     return __real_fwrite_unlocked(p, sz, n, fp);
   }
   if (!g_wrScript.empty())
@@ -581,6 +588,7 @@ static void runAsync(const std::vector<string>& hdr, bool freeMode)
   g_startGateDone = false;
   g_forced.store(!freeMode);
   g_shortWait.store(freeMode);
+  g_slowWriteUs.store(freeMode ? atol(hdrGet(hdr, "slow", "0").c_str()) : 0);
   std::vector<std::unique_ptr<Worker> > ws;
   for (int t = 0; t < T; ++t)
   {
@@ -720,6 +728,7 @@ static void runAsync(const std::vector<string>& hdr, bool freeMode)
   g_virtual.store(false);
   g_forced.store(false);
   g_shortWait.store(false);
+  g_slowWriteUs.store(0);
   listFiles();
   for (size_t i = 0; i < g_announce.size(); ++i)
   {
